@@ -33,6 +33,8 @@ var pagerFamilies = []pagerFamily{
 	{"file-dash", func(b string, k int) string { return fmt.Sprintf("%s/news/story-%d.html", b, k) }},
 	{"two-numbers", func(b string, k int) string { return fmt.Sprintf("%s/zine/%d/piece-%d", b, (k+1)/2, k) }},
 	{"query-multi", func(b string, k int) string { return fmt.Sprintf("%s/list?cat=%d&page=%d&sort=%d", b, 1+k%2, k, 2) }},
+	// a query whose last parameter ends in a slash
+	{"query-trailing-slash", func(b string, k int) string { return fmt.Sprintf("%s/list?page=%d&back=/news/", b, k) }},
 	// escaped reserved characters in the path: unescaping them changes the URL ("%25" -> "%", "%3F" -> "?")
 	{"escaped-percent", func(b string, k int) string { return fmt.Sprintf("%s/a/100%%25/page/%d", b, k) }},
 	{"escaped-qmark", func(b string, k int) string { return fmt.Sprintf("%s/a/what%%3Fx/page/%d", b, k) }},
@@ -105,7 +107,13 @@ func genPager(t *rapid.T) pagerPage {
 		case "relative":
 			u := fam.link(base, i)
 			return u[len(base):]
+		case "jspath":
+			return "javascript:" + fam.link("", i)
 		case "js":
+			if g.chance(25, "jspath") {
+				// a script URL that looks like a pager link after its scheme
+				return "javascript:" + fam.link("", i)
+			}
 			return fmt.Sprintf(g.pick("jsform", "javascript:go(%d)", "javascript:go(%d)", "JavaScript:go(%d)", "JAVASCRIPT:go(%d)", " javascript:go(%d)", "javascript:void(%d)"), i)
 		case "queryonly":
 			u := fam.link(base, i)
@@ -140,8 +148,12 @@ func genPager(t *rapid.T) pagerPage {
 	}
 
 	var items []string
+	allScript := g.chance(5, "allscript") // every numbered link is a script URL that mimics a pager link
 	for i := 1; i <= n; i++ {
 		kind := g.weighted("ik", pagerItemKinds)
+		if allScript {
+			kind = "jspath"
+		}
 		if (fam.name == "dir-sub-num" || strings.HasPrefix(fam.name, "escaped")) && kind == "link" && g.chance(50, "famdocrel") {
 			kind = "docrel" // these families are about how relative links are resolved
 		}
@@ -237,6 +249,10 @@ func genPager(t *rapid.T) pagerPage {
 		kinds["second-pager"] = true
 	}
 	b.WriteString("</body></html>")
+	if g.chance(8, "pagefrag") {
+		cur += g.pick("pagefragv", "#top", "#comments")
+		kinds["page-url-with-fragment"] = true
+	}
 	return pagerPage{HTML: b.String(), PageURL: cur, Kinds: kinds}
 }
 
